@@ -421,8 +421,8 @@ M('C16', 'header-printed-for-empty-diff', PP,
   '    if di:\n        path = ""\n        atime = "  " + file_timestamp(afn)\n        btime = "  " + file_timestamp(bfn)\n        config.out.write(notebook_diff_header.format(\n            afn=afn, bfn=bfn, atime=atime, btime=btime))\n        pretty_print_diff(a, di, path, config)',
   '    path = ""\n    atime = "  " + file_timestamp(afn)\n    btime = "  " + file_timestamp(bfn)\n    config.out.write(notebook_diff_header.format(\n        afn=afn, bfn=bfn, atime=atime, btime=btime))\n    if di:\n        pretty_print_diff(a, di, path, config)', 'R16.3')
 M('C16', 'rmtree-not-in-finally', PP,
-  "        r = re.compile(r\"^\\\\ No newline at end of file\\n?\", flags=re.M)\n        output, n = r.subn(\"\", output)\n        assert n <= 2, 'unexpected output from external diff renderer'\n    finally:\n        shutil.rmtree(td)",
-  "        r = re.compile(r\"^\\\\ No newline at end of file\\n?\", flags=re.M)\n        output, n = r.subn(\"\", output)\n        assert n <= 2, 'unexpected output from external diff renderer'\n    except OSError:\n        raise\n    shutil.rmtree(td)", 'R16.4')
+  "        # tool prints without any prefix in word-diff mode; leave it all in)\n    finally:\n        shutil.rmtree(td)",
+  "        # tool prints without any prefix in word-diff mode; leave it all in)\n    except OSError:\n        raise\n    shutil.rmtree(td)", 'R16.4')
 M('C16', 'which-diff-launches-git', PP, "    elif config.use_diff and which('diff'):\n        return diff_render_with_diff(a, b)", "    elif config.use_diff and which('diff'):\n        return diff_render_with_git(a, b, config)", 'R16.4')
 T('C16', 'twin-use-color-last-conjunct', PP, '    if config.use_color and not prefix.strip() and (is_markdown or config.language):', '    if not prefix.strip() and (is_markdown or config.language) and config.use_color:')
 T('C16', 'twin-new-plain-constant', PP, "DIFF_ENTRY_END = '\\n'", "DIFF_ENTRY_END = '\\n'\nSECTION_RULE = '-' * 20")
@@ -687,10 +687,10 @@ M('C16', 'renderer-helper-loses-parameter', PP, 'def pretty_print_attachments(at
 M('C03', 'stale-helper-name-on-rare-arm', MG, "                elif will_diff_counter_parent_deletion(thediff, item_path, strategies):", "                elif will_counter_parent_deletion(thediff, item_path, strategies):", 'R03.13')
 M('C03', 'local-assigned-on-one-branch-only', STR, "    local_conflict_diffs, remote_conflict_diffs = collect_conflicting_diffs(base_path, decisions)\n\n    # Drop conflict decisions\n    decisions.decisions = [d for d in decisions if not d.conflict]\n\n    # FIXME: Review this code.",
   "    if decisions.has_conflicted():\n        local_conflict_diffs, remote_conflict_diffs = collect_conflicting_diffs(base_path, decisions)\n\n    # Drop conflict decisions\n    decisions.decisions = [d for d in decisions if not d.conflict]\n\n    # FIXME: Review this code.", 'R03.13')
-T('C16', 'twin-local-assigned-under-correlated-guard', PP, "        output, n = r.subn(\"\", output)\n        assert n <= 2, 'unexpected output from external diff renderer'",
-  "        if status is not None:\n            cleaned, n = r.subn(\"\", output)\n        if status is not None:\n            output = cleaned\n            assert n <= 2, 'unexpected output from external diff renderer'")
-M('C16', 'renderer-local-unbound-when-tool-missing', PP, "        output, n = r.subn(\"\", output)\n        assert n <= 2, 'unexpected output from external diff renderer'",
-  "        if status == 0:\n            cleaned, n = r.subn(\"\", output)\n        output = cleaned\n        assert n <= 2, 'unexpected output from external diff renderer'", 'R16.9')
+T('C16', 'twin-local-assigned-under-correlated-guard', PP, "        stripped, n = r.subn(\"\", output)\n        if n <= 2:\n            output = stripped\n",
+  "        if status is not None:\n            stripped, n = r.subn(\"\", output)\n        if status is not None:\n            if n <= 2:\n                output = stripped\n")
+M('C16', 'renderer-local-unbound-when-tool-missing', PP, "        stripped, n = r.subn(\"\", output)\n        if n <= 2:\n            output = stripped\n",
+  "        if status == 0:\n            stripped, n = r.subn(\"\", output)\n        if n <= 2:\n            output = stripped\n", 'R16.9')
 
 # ------------------------------------------------------------------------------------------ op-guarded field reads
 M('C02', 'replace-arm-reads-valuelist', PATCH, "        elif op == DiffOp.REPLACE:\n            # Add replacement value and skip old\n            newobj.append(e.value)", "        elif op == DiffOp.REPLACE:\n            # Add replacement value and skip old\n            newobj.extend(e.valuelist)", 'R02.9')
